@@ -15,7 +15,7 @@
  *                                    returns OK (1) / FAIL (0) if it is called
  *     result: "<input> > <out>,<out>..." joined by " | "
  *
- * exe K <real|rfc> P <prng seed> M <cmid0> <smid0> A <async delay ms> E <default delay ms> N <server nstart>
+ * exe K <real|rfc> P <prng seed> M <cmid0> <smid0> T <tok0: first token is tok0+1; -1: empty token> A <async delay ms> E <default delay ms> N <server nstart>
  *     Q <sty>:<ok>:<think ms> ...   F <fate> ...
  *     discrete-event run of whole exchanges: the application sends the requests of Q one after
  *     the other (the next one <think> ms after the previous one concluded: handler call or NACK
@@ -94,11 +94,17 @@ static size_t tokenc(unsigned long long v, uint8_t *p) {
   for (size_t i = 0; i < n; i++) p[i] = (uint8_t)(v >> (8 * (n - 1 - i)));
   return n;
 }
-static int style_of_char(int c) {
+/* styles 5 (u) and 6 (v) are the untimed forms of 3 and 4: coap_register_async(.., 0) and a
+ * later coap_async_trigger() by the application.  On the wire and for the (untimed) model they
+ * are the same as 3 and 4, so every description uses the canonical number. */
+static int raw_style_of_char(int c) {
   switch (c) { case 'p': return 0; case 'c': return 1; case 'n': return 2; case 'a': return 3;
-               case 'b': return 4; default: return 9; }
+               case 'b': return 4; case 'u': return 5; case 'v': return 6; default: return 9; }
 }
-static const char style_chars[] = "pcnab";
+static int canon_style(int s) { return s == 5 ? 3 : s == 6 ? 4 : s; }
+static int style_of_char(int c) { return canon_style(raw_style_of_char(c)); }
+static const char style_chars[] = "pcnabuv";
+#define NSTYLES 7
 
 typedef struct { int ok, type, code, mid, tkl, sty; unsigned long long tok; } dg_t;
 static dg_t dg_parse(const uint8_t *d, size_t len) {
@@ -241,7 +247,7 @@ static int app_send(int sty, int ok) {
   size_t tl;
   coap_session_new_token(cs, &tl, tok);
   coap_add_token(p, tl, tok);
-  char path = (sty >= 0 && sty < 5) ? style_chars[sty] : 'z';
+  char path = (sty >= 0 && sty < NSTYLES) ? style_chars[sty] : 'z';
   coap_add_option(p, COAP_OPTION_URI_PATH, 1, (const uint8_t *)&path);
   if (nreqs < MAXREQ) {
     reqs[nreqs].mid = coap_pdu_get_mid(p);
@@ -266,6 +272,7 @@ static void client_setup(const coap_address_t *server, int maxr, int mid0, long 
   if (maxr >= 0) coap_session_set_max_retransmit(cs, (uint16_t)maxr);
   if (mid0 >= 0) cs->tx_mid = (uint16_t)mid0;
   if (tok0 >= 0) cs->tx_token = (uint64_t)tok0;
+  else if (tok0 == -1) cs->tx_token = UINT64_MAX;   /* the first token is 0: zero length on the wire */
   nreqs = 0;
   app_out = -1;
   vn_on_send = hook_send;
@@ -300,7 +307,7 @@ static size_t peer_bytes(uint8_t *b, const char *kind, int mid, unsigned long lo
   int type = 0, code = 0x45, with_tok = 1;
   if (!strcmp(kind, "ae")) { type = 2; code = 0; with_tok = 0; }
   else if (!strcmp(kind, "rs")) { type = 3; code = 0; with_tok = 0; }
-  else if (!strcmp(kind, "ar")) type = 2;
+  else if (!strcmp(kind, "ar") || !strcmp(kind, "ax")) type = 2;
   else if (!strcmp(kind, "cr")) type = 0;
   else if (!strcmp(kind, "nr")) type = 1;
   if (!with_tok) tl = 0;
@@ -310,6 +317,9 @@ static size_t peer_bytes(uint8_t *b, const char *kind, int mid, unsigned long lo
   b[n++] = (uint8_t)mid;
   memcpy(b + n, t, tl);
   n += tl;
+  if (!strcmp(kind, "ax")) b[n++] = 0x90;   /* experiment only (not generated, not modelled): a
+                                               piggybacked response with the unassigned critical
+                                               option 9 */
   if (code) { b[n++] = 0xff; b[n++] = 'r'; }
   return n;
 }
@@ -466,12 +476,36 @@ static coap_tick_t adelay = 300;
 static int srv_nstart = 0, smid0 = -1, smid_set = 0;
 static long long smid_first = -1;   /* tx_mid of the server session before its first draw */
 
+/* untimed asyncs waiting for the application's coap_async_trigger() */
+#define MAXTRIG 64
+static struct { coap_session_t *sess; unsigned long long tok; uint8_t tb[8]; size_t tl;
+                coap_tick_t due; int done; } trig[MAXTRIG];
+static int ntrig = 0;
+static void app_triggers(void) {
+  for (int i = 0; i < ntrig; i++)
+    if (!trig[i].done && trig[i].due <= vn_now) {
+      coap_bin_const_t t;
+      trig[i].done = 1;
+      t.s = trig[i].tb;
+      t.length = trig[i].tl;
+      coap_async_t *a = coap_find_async(trig[i].sess, t);
+      if (a) coap_async_trigger(a);
+    }
+}
+static coap_tick_t trig_next_due(void) {
+  coap_tick_t best = 0;
+  for (int i = 0; i < ntrig; i++)
+    if (!trig[i].done && (!best || trig[i].due < best)) best = trig[i].due;
+  return best;
+}
+
 /* real libcoap server: one handler, the style is the resource name */
 static void on_get(coap_resource_t *r, coap_session_t *s, const coap_pdu_t *req,
                    const coap_string_t *q, coap_pdu_t *resp) {
   (void)q;
   coap_str_const_t *name = coap_resource_get_uri_path(r);
-  int sty = style_of_char(name->s[0]);
+  int raw = raw_style_of_char(name->s[0]);
+  int sty = canon_style(raw);
   coap_bin_const_t tok = coap_pdu_get_token(req);
   if (!smid_set) {
     smid_set = 1;
@@ -497,8 +531,18 @@ static void on_get(coap_resource_t *r, coap_session_t *s, const coap_pdu_t *req,
   default: {
     coap_async_t *a = coap_find_async(s, tok);
     if (!a) {
-      a = coap_register_async(s, req, adelay);
+      /* timed: the library fires it; untimed: the application triggers it adelay ms later */
+      a = coap_register_async(s, req, raw >= 5 ? 0 : adelay);
       if (!a) coap_pdu_set_code(resp, COAP_RESPONSE_CODE_SERVICE_UNAVAILABLE);
+      else if (raw >= 5 && ntrig < MAXTRIG) {
+        trig[ntrig].sess = s;
+        trig[ntrig].tok = tokval(tok.s, tok.length);
+        trig[ntrig].tl = tok.length;
+        memcpy(trig[ntrig].tb, tok.s, tok.length < 8 ? tok.length : 8);
+        trig[ntrig].due = vn_now + adelay;
+        trig[ntrig].done = 0;
+        ntrig++;
+      }
       return;               /* no code: empty ACK */
     }
     if (sty == 4) coap_pdu_set_type(resp, COAP_MESSAGE_NON);
@@ -688,6 +732,7 @@ static void deliver(size_t idx) {
 
 static void do_exe(void) {
   int cmid0 = 100;
+  long long ctok0 = 0;
   uint64_t prng_seed = 12345;
   int nq = 0, qs[MAXREQ], qok[MAXREQ];
   coap_tick_t qthink[MAXREQ];
@@ -704,6 +749,7 @@ static void do_exe(void) {
     else if (!strcmp(a, "E") && i + 1 < vntok) { dflt_delay = (coap_tick_t)atoll(vtok[i + 1]); i += 2; }
     else if (!strcmp(a, "N") && i + 1 < vntok) { srv_nstart = atoi(vtok[i + 1]); i += 2; }
     else if (!strcmp(a, "H") && i + 1 < vntok) { app_method = atoi(vtok[i + 1]); i += 2; }
+    else if (!strcmp(a, "T") && i + 1 < vntok) { ctok0 = atoll(vtok[i + 1]); i += 2; }
     else if (!strcmp(a, "Q")) {
       i++;
       while (i < vntok && vtok[i][0] >= '0' && vtok[i][0] <= '9' && nq < MAXREQ) {
@@ -721,6 +767,7 @@ static void do_exe(void) {
   vn_now = 1000;
   vn_prng_seed(prng_seed);
   rfc_nseen = rfc_ncon = rfc_nasync = 0;
+  ntrig = 0;
   rfc_mid = smid0 >= 0 ? smid0 : 7000;
   coap_address_t server;
   if (kind_real) {
@@ -728,7 +775,7 @@ static void do_exe(void) {
     if (block_mode_on) coap_context_set_block_mode(srv, COAP_BLOCK_USE_LIBCOAP);
     ep = vn_new_server_ep(srv);
     if (!ep) { puts("ERROR no endpoint"); exit(2); }
-    for (int k = 0; k < 5; k++) {
+    for (int k = 0; k < NSTYLES; k++) {
       char nm[2] = { style_chars[k], 0 };
       coap_resource_t *r = coap_resource_init(coap_new_str_const((const uint8_t *)nm, 1),
                                               COAP_RESOURCE_FLAGS_RELEASE_URI);
@@ -741,7 +788,7 @@ static void do_exe(void) {
     vn_addr4(&server, VN_LOOPBACK, 5683);
     coap_address_copy(&rfc_addr, &server);
   }
-  client_setup(&server, -1, cmid0, 0);
+  client_setup(&server, -1, cmid0, ctok0);
   coap_address_copy(&cli_addr, &cs->addr_info.local);
   use_tok_verdict = 1;
   sb_reset(&steps); sb_reset(&times); nsteps = 0;
@@ -765,6 +812,7 @@ static void do_exe(void) {
     unsigned ws = 0;
     if (kind_real) {
       size_t n0 = vn_nout;
+      app_triggers();
       ws = vn_prepare(srv);
       srv_record(NULL, n0);
     } else rfc_timers();
@@ -788,7 +836,7 @@ static void do_exe(void) {
       char in[32];
       step_begin();
       app_send(qs[qi], qok[qi]);
-      snprintf(in, sizeof(in), "S%d", qs[qi]);
+      snprintf(in, sizeof(in), "S%d", canon_style(qs[qi]));
       step_end(in);
       qi++;
       assign_fates();
@@ -803,6 +851,9 @@ static void do_exe(void) {
     if (ws && (!next || vn_now + ws < next)) next = vn_now + ws;
     if (!kind_real) {
       coap_tick_t r = rfc_next_due();
+      if (r && (!next || r < next)) next = r;
+    } else {
+      coap_tick_t r = trig_next_due();
       if (r && (!next || r < next)) next = r;
     }
     for (int k = 0; k < npend; k++) if (!next || pend[k].t < next) next = pend[k].t;
